@@ -3,7 +3,7 @@
 Model: lean/GscribModel/Model/Format.lean (driver mode `format`, op `entry`); theorems: Props/C09.lean.
 Implementation: a real `GCodeBuilder` writing to a recording writer; every entry point that takes free
 text (`comment()`, `comment(msg, *args)`, `annotate()`, `comment=` of move / rapid / move_absolute /
-rapid_absolute / set_axis / auto_home / probe / trace.polyline, `emergency_halt(message)`), under every
+rapid_absolute / set_axis / auto_home / probe / halt / trace.polyline, `emergency_halt(message)`), under every
 comment style of COMMENT_OPENINGS/ENDINGS plus several to-end-of-line symbols, and three line endings.
 
 Oracle (independent of the model): the bytes of the call, with comments removed by an independent Python
@@ -22,7 +22,6 @@ from . import fmt_common as F
 
 PROP = "C09"
 INNOCUOUS = "innocuous"
-HALT_KW = "halt-comment-kwarg"
 EOLS = ["\\n", "\\r\\n", "\\r"]
 
 # ------------------------------------------------------------------ entry points
@@ -75,9 +74,10 @@ def entry_points():
                      lambda t: _cmd("G1", [("X", 1), ("Y", 0), ("Z", 0)])(t) + _cmd("G1", [("X", 1), ("Y", 1), ("Z", 0)])(t)),
         "emergency_halt": (lambda g, t: g.emergency_halt(t), _ehalt(False)),
         "emergency_halt-reset": (lambda g, t: g.emergency_halt(t, reset=True), _ehalt(True)),
-        # not a text entry point of the API (halt takes "arbitrary command parameters"): exercised only when the
-        # finding HaltCommentKwarg is listed in known_findings.json - oracle only, no model
-        HALT_KW: (lambda g, t: g.halt("pause", comment=t), lambda t: []),
+        # halt(mode, comment=text, **params) goes through _get_statement like set_axis / auto_home / probe
+        "halt": (lambda g, t: g.halt("pause", comment=t), _table(E.HaltMode("pause"), [])),
+        "halt-params": (lambda g, t: g.halt("wait-for-bed", S=60, comment=t),
+                        _table(E.HaltMode("wait-for-bed"), [("S", 60)])),
     }
 
 
@@ -226,9 +226,8 @@ def run(R: core.Run):
         "comment symbols do not contain the text '{}' (with symbols '{}' the template's opening part is empty and "
         "every comment is emitted as bare text - a configuration outside COMMENT_OPENINGS and outside this check)",
         "text is valid Unicode (a lone surrogate makes `bytes(line, 'utf-8')` fail with GscribError before anything is written)",
-        "string-valued *parameters* (e.g. `halt('pause', comment='x')`, which gscrib treats as the parameter "
-        "`COMMENTx`, or `move(x=1, P='1\\nM3')`) are emitted verbatim by `parameters()`: they are G-code words by "
-        "construction, not comment text, and are not part of this property's entry points",
+        "string-valued *parameters* (e.g. `move(x=1, P='1\\nM3')`) are emitted verbatim by `parameters()`: they are "
+        "G-code words by construction, not comment text, and are not part of this property's entry points",
     ]
     R.trusted = [
         "Lean 4.33 kernel; axioms propext, Classical.choice, Quot.sound only (audited per theorem)",
@@ -239,8 +238,7 @@ def run(R: core.Run):
     if not F.repo_styles_match():
         R.notes.append("COMMENT_OPENINGS/ENDINGS of the tree under test differ from the harness table")
         R.count("styles-table-differs")
-    listed = {f["id"] for f in core.load_findings(PROP) if f.get("status") == "finding"}
-    names = [n for n in entry_points() if n != HALT_KW or "HaltCommentKwarg" in listed]
+    names = list(entry_points())
     rng = R.rng
     # corpus: the historic escapes under every style and entry point
     corpus = [(sym, rng.choice(EOLS), name, t) for sym in F.ALL_SYMBOLS for name in names for t in
@@ -286,22 +284,7 @@ def run(R: core.Run):
             sym = rng.choice(F.ALL_SYMBOLS)
             more.append((sym, rng.choice(EOLS), rng.choice(names), gen_text(rng, F.style_of(sym)[1])))
         run_batch(R, more, "search", fresh=False, oracle_only=True)
-    return FINDING_PREDICATES, WITNESSES
-
-
-def witness_halt_comment_kwarg():
-    """`halt('pause', comment=text)`: comment= is taken as a parameter and written verbatim"""
-    s = Session(";", "\\n", True)
-    exc, raw = s.call(HALT_KW, "x\nG1 X9")
-    bexc, braw = s.call(HALT_KW, INNOCUOUS)
-    bad = exc is None and (F.strip_comments(raw, ";", "") != F.strip_comments(braw, ";", "")
-                           or F.break_count(raw) != F.break_count(braw))
-    return bad, f"g.halt('pause', comment='x\\nG1 X9') wrote {raw!r}"
-
-
-# structural predicates (call site), never "the oracle failed"
-FINDING_PREDICATES = {"HaltCommentKwarg": lambda fl: isinstance(fl.get("case"), dict) and fl["case"].get("entry") == HALT_KW}
-WITNESSES = {"HaltCommentKwarg": witness_halt_comment_kwarg}
+    return {}, {}
 
 
 def replay(data):
